@@ -377,13 +377,22 @@ func explainCommentChange(rec *evid.Rec, src, outText []byte) string {
 	}
 	used := ""
 	cs := srcgen.ScanCommentsDetailed(src)
-	seen := map[string]int{}
-	var unexplained []string
+	missing := map[string]int{}
+	for k, n := range in {
+		if n > out[k] {
+			missing[k] = n - out[k]
+		}
+	}
+	explained := map[string]int{}
+	type occ struct {
+		key string
+		ok  bool
+	}
+	var occs []occ
 	for i, c := range cs {
 		k := normComment(c.Text)
-		seen[k]++
-		if seen[k] <= out[k] {
-			continue // still present (the first occurrences are taken as the surviving ones)
+		if missing[k] == 0 {
+			continue
 		}
 		end := c.Offset + len(c.Text)
 		for j := i + 1; ; j++ {
@@ -409,15 +418,38 @@ func explainCommentChange(rec *evid.Rec, src, outText []byte) string {
 		}
 		switch {
 		case c.InTemplate && rec.Known("FS33"):
+			explained[k]++
+			occs = append(occs, occ{k, true})
 			if used == "" {
 				used = "FS33"
 			}
 		case rec.Known("FS34") && (strings.HasPrefix(string(src[end:]), "else") || strings.HasSuffix(string(src[:start]), "else")):
+			explained[k]++
+			occs = append(occs, occ{k, true})
 			if used == "" {
 				used = "FS34"
 			}
 		default:
-			unexplained = append(unexplained, k)
+			occs = append(occs, occ{k, false})
+		}
+	}
+	// occurrences with the same text are interchangeable: the explained ones are taken as the missing ones first
+	var unexplained []string
+	left := map[string]int{}
+	for k, n := range missing {
+		if n > explained[k] {
+			left[k] = n - explained[k]
+		}
+	}
+	for _, o := range occs {
+		if !o.ok && left[o.key] > 0 {
+			unexplained = append(unexplained, o.key)
+			left[o.key]--
+		}
+	}
+	for _, n := range left {
+		if n > 0 {
+			return "" // more copies missing than the source has unexplained occurrences: not understood
 		}
 	}
 	if len(extra) == 0 && len(unexplained) == 0 {
